@@ -164,12 +164,52 @@ def run(tier, seed):
                     got = box["f"](n)
                 except KeyError:
                     got = "KeyError"
+                except Exception as e:  # noqa   (a cache that hands back a foreign value makes the recursion itself fail)
+                    got = "raised " + type(e).__name__
                 if got != ref(n) or len(cacher.cache) > cap:
                     if len(fails) < 20:
                         fails.append({"property": "C20", "signature": "lru-reentrant",
                                       "what": "memoised recursion fib(%d) with max_length %d: returned %s (reference %s), cache holds %d entries"
                                               % (n, cap, got, ref(n), len(cacher.cache)), "cap": cap, "calls": seqn})
                     break
+    # several wrapped functions in one process: each wrapper is a cache of its own
+    nmulti = 0
+    for cap1, cap2 in ((1, 3), (2, 2), (3, 1)):
+        nmulti += 1
+        cnt = {"a": 0, "b": 0}
+
+        def fa(k):
+            cnt["a"] += 1
+            return ("a", k)
+
+        def fb(k):
+            cnt["b"] += 1
+            return ("b", k)
+        wa, wb = lru_cache(lambda k: k, cap1)(fa), lru_cache(lambda k: k, cap2)(fb)
+        ca = [c.cell_contents for c in wa.__closure__ if isinstance(c.cell_contents, LRUCacher)][0]
+        cb = [c.cell_contents for c in wb.__closure__ if isinstance(c.cell_contents, LRUCacher)][0]
+        ra, rb = [], []      # reference recency lists
+        for step in range(40):
+            k = rng.randrange(4)
+            which = rng.choice("ab")
+            w, ref, cap, tag, cacher = (wa, ra, cap1, "a", ca) if which == "a" else (wb, rb, cap2, "b", cb)
+            before = cnt[tag]
+            try:
+                got = w(k)
+            except Exception as e:  # noqa
+                got = "raised " + type(e).__name__
+            miss = k not in ref
+            if k in ref:
+                ref.remove(k)
+            ref.append(k)
+            del ref[:-cap]
+            if got != (tag, k) or (cnt[tag] > before) != miss or list(cacher.cache.keys()) != ref:
+                if len(fails) < 20:
+                    fails.append({"property": "C20", "signature": "lru-wrappers-share-state",
+                                  "what": "two wrapped functions (max_length %d and %d): call %s(%d) returned %s, %s, its cache holds %s (reference %s)"
+                                          % (cap1, cap2, tag, k, got, "recomputed" if cnt[tag] > before else "not recomputed",
+                                             list(cacher.cache.keys()), ref), "cap": cap})
+                break
     resps = Driver().batch(reqs)
     for (cap, calls, keymod), real, resp in zip(hist, reals, resps):
         if canon(resp) != canon(real):
@@ -184,7 +224,7 @@ def run(tier, seed):
             "disagreements": disagreements, "oracle_failures": fails,
             "distribution": {"histories": len(hist), "with_eviction": evictions, "max_len_exhaustive": maxlen,
                              "histories_with_falsy_results": nfalsy, "histories_with_colliding_hashes": nexo,
-                             "reentrant_histories": nrec}}
+                             "reentrant_histories": nrec, "multi_wrapper_histories": nmulti}}
 
 
 if __name__ == "__main__":
